@@ -272,6 +272,28 @@ verification: force-field defined warning for {BB[resname]}{BB[resid]}
 '''
 
 
+EXTRA_FF_ALL = '''[ link ]
+[ atoms ]
+BB {}
++BB {}
+[ edges ]
+BB +BB
+[ warning ]
+verification: force-field defined warning for the pair after {BB[resname]}{BB[resid]}
+'''
+NRES = {'P': 2, 'S': 29}
+
+
+def n_model_of(chains, ffwarn):
+    """Warnings of type 'model' the run has to count: one per placement of the link, in EVERY molecule (chains of one molecule
+    type included).  True: the PRO-PRO link (one placement per dipro chain); 'all': every pair of consecutive residues."""
+    if not ffwarn:
+        return 0
+    if ffwarn == 'all':
+        return sum(NRES[c] - 1 for c in chains)
+    return sum(1 for c in chains if c == 'P')
+
+
 def input_pdb(chains, n_alt):
     """multichain_pdb with n_alt atoms given a second alternate-location copy (one pdb-alternate warning each)."""
     lines = cli_c03.multichain_pdb(chains).splitlines()
@@ -344,7 +366,7 @@ def populate(work, sc, rng):
     if sc.get('ffwarn'):
         os.makedirs(os.path.join(work, 'ff', 'martini3001'))
         with open(os.path.join(work, 'ff', 'martini3001', 'verif_extra.ff'), 'w') as fh:
-            fh.write(EXTRA_FF)
+            fh.write(EXTRA_FF_ALL if sc['ffwarn'] == 'all' else EXTRA_FF)
     for name, text in (('notes.txt', 'unrelated\n'), ('#notes.txt.1#', 'unrelated backup\n'), ('sub/other.itp', 'unrelated itp\n'),
                        ('#cg.pdb.9#', 'a far backup number\n')):
         with open(os.path.join(work, name), 'w') as fh:
@@ -536,6 +558,7 @@ def cli_child(sc, root, resfile):
     post = tree(work)
     meta = {'argv': ' '.join(argv), 'rc': rc, 'err': err, 'same_singleton': state['same_singleton'],
             'tmp_left': sorted(tree(tmpd)), 'log': _log_tail(root)}
+    meta['counts'] = state['counts']
     if state['counts'] is None or (err and not state['wrote']):
         # the run never reached the gate: a harness problem (bad option set), not a verdict
         with open(resfile, 'w') as fh:
@@ -726,12 +749,12 @@ def cli_scenarios(tier, seed):
         opts = list(BASE) + list(extra)
         if gen:
             opts = [o for o in opts if o != '-noscfix'] + ['-scfix']
-        n_model = 1 if ffwarn else 0
+        n_model = n_model_of(chains, ffwarn)
         if mw in ('left-typeonly',) and (n_alt == 0 or not (gen or ffwarn)):
             raise ValueError('left-typeonly needs two warning types')
         sc = {'fam': 'cli', 'chains': chains, 'n_alt': n_alt, 'opts': opts, 'ffwarn': ffwarn, 'paths': paths, 'pre': pre,
               'dumps': list(dumps), 'dumps_pre': dumps_pre, 'faults': faults, 'top': top, 'mwkind': mw, 'variants': variants,
-              'maxwarn': maxwarn_for(mw, n_alt, 1 if gen else 0, n_model), 'seed': rng.randrange(1 << 30)}
+              'maxwarn': maxwarn_for(mw, n_alt, 1 if gen else 0, n_model), 'seed': rng.randrange(1 << 30), 'n_model': n_model}
         sc['expect_left'] = mw.startswith('left')
         out.append(sc)
 
@@ -753,6 +776,8 @@ def cli_scenarios(tier, seed):
     add(chains='S', extra=('-go',), mw='left-wrongtype', n_alt=1, paths='sub', pre='b1', dumps=('canon',))
     add(ffwarn=True, mw='typecount', paths='xitp', pre='hole1')
     add(ffwarn=True, n_alt=1, mw='left-typeonly', paths='same', pre='files')
+    add(chains='PP', ffwarn=True, mw='left-number', paths='rel', pre='b1')        # two chains of ONE molecule type: a warning each
+    add(chains='S', ffwarn='all', mw='left-typecount', paths='rel', pre='files')  # 28 placements in one molecule
     add(n_alt=1, mw='number', paths='absin', pre='orphan', top=False, faults=True)
     add(n_alt=1, mw='left-none', paths='same', pre='gap')
     add(n_alt=0, mw='none', paths='xitp', pre='b1', faults=True)
@@ -1043,6 +1068,14 @@ def worker(idx, scenarios, scratch, outfile):
                 if sc['fam'] == 'cli' and sc.get('faults') and facts['left'] == 0 and facts['crashes'] != len(EXCS) * facts['prims']:
                     summary['unjudged'].append({'scenario': sc, 'err': 'crash points exercised %d, model has %d primitives x %d exceptions'
                                                 % (facts['crashes'], facts['prims'], len(EXCS)), 'log': ''})
+                if sc['fam'] == 'cli' and not variant and sc.get('ffwarn') and v['v'] == 'ok':
+                    # the warnings the force field attaches to placements are stored on the molecules and emitted when the output is
+                    # prepared: every one of them has to reach the counter the gate reads (one per placement, in every molecule)
+                    got = (r['meta'].get('counts') or {}).get('model', 0)
+                    if got != sc['n_model']:
+                        v = dict(v, v='force-field-warnings-counted-%d-placements-%d' % (got, sc['n_model']))
+                    else:
+                        summary['classes']['cli:force-field-warnings-all-counted'] += 1
                 if v['v'] != 'ok':
                     summary['violations'].append({'scenario': dict(sc, directory_variant=True) if variant else sc, 'verdict': v['v'],
                                                   'argv': r['meta'].get('argv'), 'log': r['meta'].get('log', '')[-500:]})
